@@ -185,4 +185,23 @@ def run(ck):
                              {"crystal": nm, "cutoff": cut, "shift": c, "factor": factor, "betaF": [np.asarray(x).tolist() for x in (bFV, bFS, bFSV, bFT0, bFT1, bFT2)],
                               "betaF_transformed": [np.asarray(x).tolist() for x in a2], "base": [b.tolist() for b in base], "got": [g.tolist() for g in got]},
                              key="c04-vm-" + vn)
+        # rate scaling over many decades with a very fast exchange (omega2 ~ 1e13 x bare): which omega2 algorithm Lij selects
+        # must not depend on the time unit.  L0vv and Lss are accurate in this regime for crystals with one Wyckoff set and
+        # no origin-state vector basis (Lsv/L1vv are the C08 known cancellation finding and are not compared)
+        if len(sl) == 1 and len(d.OSindices) == 0:
+            tf = {k: np.array(v, dtype=float) for k, v in th.items()}
+            tf["preT2"] = tf["preT2"] * 1e13
+            ref = [np.array(x) for x in d.Lij(*d.preene2betafree(kT, **tf))]
+            for lamx in (1e-10, 1e4):
+                t3 = {k: np.array(v, dtype=float) for k, v in tf.items()}
+                for k in ("preT0", "preT1", "preT2"): t3[k] = t3[k] * lamx
+                got = [np.array(x) for x in d.Lij(*d.preene2betafree(kT, **t3))]
+                nvm += 1
+                scale = np.abs(ref[0]).max()
+                err = max(np.abs(got[0] / lamx - ref[0]).max(), np.abs(got[1] / lamx - ref[1]).max()) / scale
+                ck.case(key=("vm", "rate-scale-decades", nm, lamx, [np.asarray(v).round(10).tolist() for v in th.values()]), nontrivial=True, kind="vm:rate-scale-decades")
+                if err > 1e-6:
+                    ck.violation("scaling every rate by %g does not scale L0vv/Lss by %g when the exchange is 1e13 x the bare rate (relative %.3g)" % (lamx, lamx, err),
+                                 {"crystal": nm, "cutoff": cut, "kT": kT, "lam": lamx, "thermo": {k: np.asarray(v).tolist() for k, v in tf.items()},
+                                  "L": [x.tolist() for x in ref], "L_scaled_over_lam": [(x / lamx).tolist() for x in got]}, key="c04-vm-rate-scale-decades")
     ck.extra["vm_cases"] = nvm
